@@ -23,7 +23,7 @@ for d in sorted(glob.glob(os.path.join(VERIF, "seeded", "*"))):
             cases.append(("must-fire", n, os.path.join(d, "patch.diff"), [own]))
 for d in sorted(glob.glob(os.path.join(VERIF, "benign", "*"))):
     n = os.path.basename(d)
-    if any(n.startswith(t + "-") for t in tags):
+    if any(n == t or n.startswith(t + "-") for t in tags):
         for p in claimed:
             cases.append(("must-stay-silent", n, os.path.join(d, "patch.diff"), [p]))
 res = {}
